@@ -136,6 +136,14 @@ Proof.
   intros cfg st o st' n H. destruct o; cbn [step] in H; unfold bind in H.
   - dcase H. injection H as <- _. reflexivity.
   - dcase H. injection H as <- _. eapply add_tokens_tot; eassumption.
+  - unfold lock_tokens in H. dcase H. dcase H; [unfold bind in H; dcase H; injection H as <- _; eapply add_tokens_tot; eassumption|injection H as <- _; reflexivity].
+  - unfold lock_and_delegate, bind in H. destruct (lock_tokens cfg st owner denom amt (c_unb cfg)) as [[s1 i1]|] eqn:E1; [|discriminate].
+    cbn [fst snd] in H. destruct (superfluid_delegate cfg s1 owner i1 v) as [s|] eqn:E; [|discriminate]. injection H as <- _.
+    apply superfluid_delegate_tot in E. rewrite E. unfold lock_tokens in E1. dcase E1.
+    dcase E1; [unfold bind in E1; dcase E1; injection E1 as <- _; eapply add_tokens_tot; eassumption|injection E1 as <- _; reflexivity].
+  - unfold create_and_delegate, bind in H. dcase H.
+    match type of H with match ?c with _ => _ end = _ => destruct c as [s|] eqn:E; [|discriminate] end. injection H as <- _.
+    apply superfluid_delegate_tot in E. rewrite E. reflexivity.
   - dcase H. injection H as <- _. eapply superfluid_delegate_tot; eassumption.
   - dcase H. injection H as <- _. eapply superfluid_undelegate_tot; eassumption.
   - dcase H. destruct a as [s m]. injection H as <- _. eapply unbond_lock_tot; eassumption.
